@@ -24,7 +24,7 @@ def structured(rng, f):
     """one well-typed malformation; returns (files, description)"""
     f = copy.deepcopy(f)
     mods = list(all_mods(f)); ctxs = list(all_ctxs(f))
-    k = rng.randrange(29)
+    k = rng.randrange(33)
     bad = rng.choice(BAD_STRINGS)
     if k == 0 and ctxs:
         a, b = rng.sample(ctxs, 2) if len(ctxs) > 1 else (ctxs[0], ctxs[0]); a["parent"] = b["name"]; b["parent"] = a["name"]; d = "parent cycle"
@@ -76,6 +76,27 @@ def structured(rng, f):
     elif k == 28 and mods:
         m = rng.choice(mods); m["sources"] = rng.choice([[], [""], ["noext"], [".c"], ["a..c", "dir/"], [{"": ["x.c"]}], [{"g": []}]])
         d = "odd source lists"
+    elif k == 29:
+        d0 = list(f.values())[0][0]; d0["imports"] = [{"path": rng.choice(["nosuchdir", "emptydir", ""])}]
+        f["emptydir/other.yml"] = [{}]; d = "import of a directory without a lazefile / of the project directory itself"
+    elif k == 30:
+        # imports that import each other; the second one also lists the first as a sub-directory
+        d0 = list(f.values())[0][0]; d0["imports"] = [{"path": "impa"}]
+        f["impa/laze.yml"] = [{"imports": [{"path": "impb"}], "modules": [{"name": "impa_mod", "sources": ["a.c"]}]}]
+        f["impb/" + rng.choice(["laze-lib.yml", "laze.yml", "laze-project.yml"])] = [dict({"imports": [{"path": "impa"}], "modules": [{"sources": ["b.c"]}]},
+                                                                                      **({"subdirs": ["../impa"]} if rng.random() < 0.5 else {}))]
+        d = "imports importing each other"
+    elif k == 31:
+        # a file included by absolute path from an imported lazefile declares a module without a name (fix 8d614e3)
+        d0 = list(f.values())[0][0]; d0["imports"] = [{"path": "impc"}]
+        f["impc/laze.yml"] = [{rng.choice(["includes", "subdirs"]): ["@ABSROOT@/outside/" + rng.choice(["x.yml", ""])]}]
+        f["@ABSROOT@/outside/x.yml"] = [{"modules": [{"sources": ["o.c"]}]}]; f["@ABSROOT@/outside/laze.yml"] = [{"modules": [{"sources": ["p.c"]}]}]
+        d = "unnamed module in a file reached by absolute path from an import"
+    elif k == 32:
+        d0 = list(f.values())[0][0]; d0["imports"] = [{"path": "impd"}] + ([{"path": "impd", "name": "again"}] if rng.random() < 0.5 else [])
+        if rng.random() < 0.6: d0["subdirs"] = (d0.get("subdirs") or []) + ["impd"]
+        f["impd/laze.yml"] = [{"modules": [{"name": "impd_mod", "sources": ["d.c"]}, {"sources": ["unnamed.c"]}]}]
+        d = "a directory imported (twice) and listed under subdirs"
     else:
         m = (mods or [{}])[0]; m["provides"] = [bad]; m["conflicts"] = [bad]; d = "provides/conflicts %r" % bad
     return f, d
